@@ -389,7 +389,7 @@ ATHERIS_BUDGET = 240.0
 # ConvertError; hooks are not code pane may let fall through.
 
 HOOK_EXC = ['ValueError', 'AttributeError', 'NameError', 'KeyError', 'LookupError', 'TypeError', 'StopIteration', 'ZeroDivisionError', 'Custom']
-HOOKS = ['post_init', 'default_factory', 'predicate']
+HOOKS = ['post_init', 'default_factory', 'predicate', 'namedtuple_new']
 _HK: t.Dict[t.Any, t.Any] = {}
 
 
@@ -423,7 +423,16 @@ def check_hooks(case: t.Any, ctx: Ctx) -> None:
                 raise E('raised by a user hook')
             return 0 if hook == 'default_factory' else True
         ns: t.Dict[str, t.Any] = {'__annotations__': {'name': str, 'n': int}}
-        if hook == 'post_init':
+        if hook == 'namedtuple_new':
+            # a named tuple class whose subclass checks its fields in __new__: whether the hook runs at all is the library's choice
+            # (it builds named tuples with `_make`, which goes around __new__); what it raises when it does run is a refusal
+            Base = t.NamedTuple('Base', [('name', str), ('n', int)])
+
+            def new(cls: t.Any, name: str, n: int) -> t.Any:
+                boom()
+                return Base.__new__(cls, name, n)
+            _HK[key] = (type('Hooked', (Base,), {'__new__': new, '__slots__': ()}), state)
+        elif hook == 'post_init':
             ns['n'] = 0
             ns['__post_init__'] = lambda self: boom()
         elif hook == 'default_factory':
@@ -431,14 +440,19 @@ def check_hooks(case: t.Any, ctx: Ctx) -> None:
         else:
             ns['__annotations__'] = {'name': str, 'n': t.Annotated[int, Condition(boom, 'user predicate')]}
             ns['n'] = 0
-        _HK[key] = (type('Hooked', (pane.PaneBase,), ns, in_format=('struct', 'tuple')), state)
+        if key not in _HK:
+            _HK[key] = (type('Hooked', (pane.PaneBase,), ns, in_format=('struct', 'tuple')), state)
     (Cls, state) = _HK[key]
+    if hook == 'namedtuple_new' and (layout == 'mapping' or where == 'json'):
+        ctx.label('cell:not-formable')
+        return
     state['armed'] = True
     data: t.Any = ({'name': 'a'} if hook == 'default_factory' else {'name': 'a', 'n': 1}) if layout == 'mapping' else (['a'] if hook == 'default_factory' else ['a', 1])
     ctx.label(f"hook:{hook}", f"raises:{excn}", layout, where)
     ctx.nontrivial(True)
     calls = {
-        'bare': [('from_data', lambda: pane.from_data(data, Cls)), ('Cls.from_data', lambda: Cls.from_data(data)), ('convert', lambda: pane.convert(data, Cls))],
+        'bare': [('from_data', lambda: pane.from_data(data, Cls)), *([('Cls.from_data', lambda: Cls.from_data(data))] if hasattr(Cls, 'from_data') else []),
+                 ('convert', lambda: pane.convert(data, Cls)), ('from_data(Dict[str, Cls])', lambda: pane.from_data({'k': data}, t.Dict[str, Cls]))],
         'List': [('from_data(List[Cls])', lambda: pane.from_data([data], t.List[Cls]))],
         'Union': [('from_data(Union[Cls, None])', lambda: pane.from_data(data, t.Optional[Cls])), ('from_data(Union[Cls, str])', lambda: pane.from_data(data, t.Union[Cls, str]))],
         'json': [('Cls.from_jsons', lambda: Cls.from_jsons(json.dumps(data))), ('Cls.from_yamls', lambda: Cls.from_yamls(json.dumps(data)))],
@@ -448,6 +462,8 @@ def check_hooks(case: t.Any, ctx: Ctx) -> None:
         try:
             f()
             got: t.Any = None
+            if hook == 'namedtuple_new':
+                continue        # returned: the hook was not consulted
         except pane.ConvertError:
             continue
         except BaseException as e:      # noqa: B036
